@@ -66,6 +66,7 @@ theorem C18_facts :
     ∧ Facts.dtlcp.cookieLoopHvrCond =
         "len(clientHello.cookie) == 0 || !verifyCookie(secret, c.remoteAddr.String(), params, clientHello.cookie)"
     ∧ Facts.dtlcp.cookieLoopIssue = "generateCookie(secret, c.remoteAddr.String(), params)"
+    ∧ Facts.dtlcp.cookieLoopHvrLiteral = "helloVerifyRequestMsg{ serverVersion: VersionTLCP, cookie: cookie, }"
     ∧ Facts.dtlcp.cookieLoopDirectCalls =
         ["readClientHello", "marshalForCookie", "effectiveCookieSecret", "verifyCookie", "String",
          "generateCookie", "String", "setMessageSeq", "Store", "writeHandshakeRecord", "Store", "flush",
@@ -231,7 +232,7 @@ theorem C18_pre_cookie_actions (inp : List (Bool × Bool)) :
     ∧ ((∀ e ∈ inp, e ≠ (false, true)) → runLoop macLen inp = (inp.map fun _ => .hvr macLen, false))
     ∧ (∀ f ∈ commitCalls, f ∉ Facts.dtlcp.cookiePreReachable ∧ f ∈ Facts.dtlcp.cookiePostOnlyReachable)
     ∧ Facts.dtlcp.cookiePreHandshakeWrites = ["helloVerifyRequestMsg"] := by
-  refine ⟨?_, ?_, ?_, C18_facts.2.2.2.2.2.2.2.2.2.2.2.2.2.2.2.2.2.1, C18_facts.2.2.2.2.2.2.2.2.2.2.2.2.2.2.2.2.1⟩
+  refine ⟨?_, ?_, ?_, C18_facts.2.2.2.2.2.2.2.2.2.2.2.2.2.2.2.2.2.2.1, C18_facts.2.2.2.2.2.2.2.2.2.2.2.2.2.2.2.2.2.1⟩
   · induction inp with
     | nil => intro a ha; simp [runLoop] at ha
     | cons x xs ih =>
